@@ -40,6 +40,23 @@ MISSED_FIRST = {
     "C13-k2": "missed: all trees of a list were on the same taxa; caught after heterogeneous lists were added (with the oracle 'all trees or an error')",
     "C18-k2": "missed: states were words; caught after states that are equal as numbers but different as text were added",
     "C18-k3": "missed: brlen setrand was only run with its default flags; caught after --internal=false / --external=false templates were added",
+    # fourth wave: "first version" = the checks as committed when the wave came back (before the fourth strengthening round), measured
+    "C02-j1": "decided, but only through the wall-clock backstop: the single-tree entry points ran outside the scheduler, the worker hung until its test timeout and the case was attributed as process-crash after 15 minutes; now the stand-in simulator refuses to start goroutines and the case is repeated inside the scheduler: a deadlock verdict in milliseconds",
+    "C02-j2": "missed: no corpus stream had more than 10 trees; caught after a 14-tree stream with a malformed 12th tree was added",
+    "C04-j2": "not detected and not kept as a violation: the property speaks of indexes that have been (re)computed, and a ReinitIndexes repairs everything",
+    "C08-j2": "missed: a lost update inside one statement; caught after race runs were added to the C08 check (the C11 race run caught it before)",
+    "C08-j3": "missed: goroutines were never pre-empted inside a critical section; caught (wrong counts, not only a race report) since lock waits are simulated and pre-emption inside critical sections is allowed",
+    "C10-j1": "missed: a lost update inside one statement; caught after race runs were added to the C10 check",
+    "C10-j3": "missed: the branch above a root child whose split is trivial was left out of every oracle; caught after 'whatever support is written is a number in [0,1]' was added",
+    "C13-j2": "not detected and not kept as a violation: a document cut between two phylogenies is not a well-formed input (C13's quantifier)",
+    "C13-j3": "not detected and not kept as a violation: needs two Nexus parsers running at the same time, which is neither in C13's quantifier nor done by any gotree command",
+    "C15-j1": "missed: the single-tip function was never called and every by-name edit was preceded by a re-index; caught after the step 'InsertIdenticalTip' and the refusal oracle (a by-name edit on a tip that exists, on an index the previous function keeps current, cannot be refused) were added",
+    "C15-j2": "missed: donors never had a tip of the replaced name; caught after that donor and the refusal oracle were added",
+    "C17-j2": "missed: every enumeration used a new rearranger; caught after one rearranger per case and the 'keep a move, enumerate again' round were added",
+    "C17-j3": "missed: no step added tips without re-indexing; caught after GraftTipOnEdge became a step",
+    "C18-j1": "missed: the collections of the templates had at most 6 trees; caught after a 16-tree collection with a malformed tree near its end was added",
+    "C18-j2": "not a C18 violation in anything C18 controls (file reads have fixed boundaries, the wrong result is the same in every run); it breaks C13 and the C13 check catches it (multi:tree-skipped, roundtrip:newick)",
+    "C18-j3": "missed: only commands were run, which prune freshly parsed (un-indexed) trees; caught after library-call templates were added",
     "C18-n3": "only evaluated after the second strengthening round (interfering command between two runs of a template); the first version would have missed it",
 }
 for spec in sys.argv[3:]:
